@@ -344,6 +344,8 @@ def gen_world(rng, env, n=None, with_junk=None, thorough=False, with_copy=True):
     sub = {}
     if rng.random() < 0.8:
         sub = {'archive': [('arch_%08X' % eid, sample), ('other', b'data')], 'nested': {'deeper': [('%08X.pel' % eid, b'zz')]}}
+        if rng.random() < 0.5:
+            sub['logs'] = [('in_logs_%08X' % eid, sample)]       # (what a copied BMC tree looks like: never the directory that was asked for)
     links = {}
     if sub and files and with_copy and rng.random() < 0.35:
         # links into the archive: one whose name carries the archived log's id, one under a name with another id (targets in a subdirectory: what
@@ -359,7 +361,10 @@ def gen_world(rng, env, n=None, with_junk=None, thorough=False, with_copy=True):
              b'XX' + sample[2:] if kind < 0.85 else b'' if kind < 0.9 else None)
     codes = [c for c in (ascii_ref(p) for _, p in d) if c]
     exclude = None if rng.random() < 0.25 else '\n'.join(rng.sample(codes, min(len(codes), 2)) + ['BD00FFFF']) + '\n'
-    out = None if rng.random() < 0.2 else ([] if rng.random() < 0.7 else [('old.json', b'{}'), ('keep.txt', b'kept')])
+    out = None if rng.random() < 0.2 else ([] if rng.random() < 0.6 else [('old.json', b'{}'), ('keep.txt', b'kept')])
+    if out is not None and d and rng.random() < 0.4:
+        # an earlier run left an output under exactly the name --json uses for the first PEL: it is replaced in place
+        out = out + [('%s.%s.json' % (d[0][0], h_), b'{"stale": true}') for h_ in ('%08X' % d[0][1]['ph']['eid'], '0x%08X' % d[0][1]['ph']['eid'], '0x%02X' % d[0][1]['ph']['eid'])]
     w = new_world(files, sub, ffile, exclude, out)
     w['links'] = links
     return w, d
@@ -373,7 +378,7 @@ def gen_value(rng, m, d):
         return rng.choice(['@X', '@X', '@X', '@NOX', '@P'])
     pels = [p for _, p in d]
     if m in ('pelID', 'delete'):
-        pool = [spell(rng, p['ph']['eid']) for p in pels[:4]] + ['DEADBEEF', '123', '0x1234567', 'junk_emp']
+        pool = [spell(rng, p['ph']['eid']) for p in pels[:4]] + ['DEADBEEF', '123', '0x1234567', 'junk_emp', '????????', '*' * 8, '[0-9A-F]', '0x??????']
         return rng.choice(pool)
     if m == 'plid':
         return rng.choice([spell(rng, p['ph']['plid']) for p in pels[:4]] + ['50000001', '1234', '0x123456789'])
